@@ -191,6 +191,25 @@ func CheckOp(c *Ctx, req mon.OpReq, exp Expect, viaModel bool, mo mon.ModelOpts,
 		if v := Judge(exp, om); !v.OK {
 			ok = false
 			report(c, "model", req, exp, om, v, known)
+		} else if c.Idx%8 == 4 {
+			// the same single-node model loaded once and run three times with fresh caller tensors
+			g, feed := mon.BuildOpModel(req, mo)
+			var outs []string
+			for _, o := range g.Outputs {
+				outs = append(outs, o.Name)
+			}
+			if sess := mon.NewSession(g.Bytes()); sess.Err == nil {
+				for n := 1; n <= 3; n++ {
+					on := sess.Run(feed, outs)
+					c.Eval(1)
+					if v := Judge(exp, on); !v.OK {
+						ok = false
+						report(c, fmt.Sprintf("model, Run %d on one loaded model", n), req, exp, on, v, known)
+						break
+					}
+				}
+				c.Count("single-node-models-run-three-times", 1)
+			}
 		}
 	}
 	if c.Verbose {
